@@ -16,6 +16,6 @@ NEXT Next
 VIEW View
 ${EMIT}
 ${CONSTRAINT}
-INVARIANTS TypeOK QueueBound NoDrop NothingBeforeAuth Filtered InOrder WrongHostNeverSent CloseEnds InterimNotFinal Terminates HalfTerminates
+INVARIANTS TypeOK QueueBound NoDrop NothingBeforeAuth Filtered InOrder WrongHostNeverSent OtherOriginEnds SpellingDecides CloseEnds InterimNotFinal Terminates HalfTerminates
 PROPERTIES NothingAfterEnd
 CHECK_DEADLOCK FALSE
